@@ -18,32 +18,55 @@ Local Open Scope Z_scope.
 
 (* ------------------------------------------------------------------ C10 *)
 
-(* For every expression: the folder returns (it does not panic), and on every event the folded
-   expression evaluates to the same value, or the same absence of a value, or the same panic, as
+(* Known finding (known_findings.json, class "type-blind-identity-rewrite"): while folding e, a
+   fold rule outside the whitelist of type-safe rule shapes (Model.rule_okb) fires.  With the
+   current optimize.rs these are exactly the identity rewrites of fold_binary's second pass --
+   `x * 0 -> 0`, `0 * x -> 0`, `x * 1 -> x`, `1 * x -> x`, `x + 0 -> x`, `0 + x -> x`, `x - 0 -> x`,
+   `x / 1 -> x` for a non-literal x (after the sub-expressions have been folded) -- which assume
+   that x is an integer.  They are pinned by optimize.rs's own unit tests and are not repaired. *)
+Definition Known_C10_identity (O : fops) (e : expr O) : Prop := identity_fires O e = true.
+
+(* For every expression outside that class: the folder returns (it does not panic), and on every
+   event the folded expression evaluates to the same value, or the same absence of a value, as
    the unfolded one. *)
 Theorem C10_fold_sound : forall (O : fops) (X : xops O) (e : expr O),
+  ~ Known_C10_identity O e ->
   exists e', fold O e = Some e' /\ forall env, eval O X env e' = eval O X env e.
-Proof. intros O X e. destruct (fold_sound O X e) as [e' [H [S _]]]. exists e'. split; [exact H | exact S]. Qed.
+Proof.
+  intros O X e HK. destruct (fold_sound O X e) as [e' [H [S _]]].
+  - unfold Known_C10_identity in HK. destruct (identity_fires O e); [exfalso; apply HK; reflexivity | reflexivity].
+  - exists e'. split; [exact H | exact S].
+Qed.
 
 (* the same for the binary64 instance that is run against the implementation *)
 Theorem C10_fold_sound_b64 : forall e : E,
+  ~ Known_C10_identity b64ops e ->
   exists e', fold64 e = Some e' /\ forall env, eval64 env e' = eval64 env e.
-Proof. intro e. exact (C10_fold_sound b64ops xb64 e). Qed.
+Proof. intros e HK. exact (C10_fold_sound b64ops xb64 e HK). Qed.
 
-(* non-vacuity (stated through the renderer of Run.v, "F:<folded>|<unfolded outcome>;<folded outcome>"):
-   literal arithmetic does fold; `price * 0` is left alone and is the float 0.0 for a float price
-   (the shape the property text names); an overflowing literal sum is left for the runtime, where
-   it has no value *)
-Example C10_folds_literals : run_case (e2 Add (ei 1) (e2 Mul (ei 2) (ei 3))) [] = "F:i7"%string.
-Proof. vm_compute. reflexivity. Qed.
-Example C10_price_times_zero :
+(* The class is a genuine finding: `price * 0` is in it, folds to the integer 0, and evaluates to
+   the float 0.0 when price is the float 2.5; `name + 0` folds to `name`, a string, where the
+   unfolded expression has no value.  (Rendering of Run.v: K<class>|F:<folded>|<unfolded>;<folded>) *)
+Theorem C10_identity_refuted :
   let price := [112; 114; 105; 99; 101]%N in
-  run_case (e2 Mul (ex price) (ei 0)) [ev [65%N] [(price, vf 4612811918334230528)]]
-  = "F:B(Mul,x[112,114,105,99,101],i0)|V:f0;V:f0"%string.
-Proof. vm_compute. reflexivity. Qed.
+  let name := [110; 97; 109; 101]%N in
+  Known_C10_identity b64ops (e2 Mul (ex price) (ei 0)) /\
+  Known_C10_identity b64ops (e2 Add (ex name) (ei 0)) /\
+  run_case (e2 Mul (ex price) (ei 0)) [ev [65%N] [(price, vf 4612811918334230528)]] = "K1|F:i0|V:f0;V:i0"%string /\
+  run_case (e2 Add (ex name) (ei 0)) [ev [65%N] [(name, vs [110%N])]] = "K1|F:x[110,97,109,101]|N;V:s[110]"%string.
+Proof. unfold Known_C10_identity. repeat split; vm_compute; reflexivity. Qed.
+
+(* non-vacuity of the main theorem: literal arithmetic does fold (and is outside the class); an
+   overflowing literal sum is left for the runtime, where it has no value; so are MIN / -1 and -MIN *)
+Example C10_folds_literals :
+  run_case (e2 Add (ei 1) (e2 Mul (ei 2) (ei 3))) [] = "K0|F:i7"%string /\
+  run_case (e2 Pow (ei 2) (ei 63)) [ev [] []] = "K0|F:i9223372036854775807|V:i9223372036854775807;V:i9223372036854775807"%string.
+Proof. split; vm_compute; reflexivity. Qed.
 Example C10_overflow_left_for_runtime :
-  run_case (e2 Add (ei i64_max) (ei 1)) [ev [] []] = "F:B(Add,i9223372036854775807,i1)|N;N"%string.
-Proof. vm_compute. reflexivity. Qed.
+  run_case (e2 Add (ei i64_max) (ei 1)) [ev [] []] = "K0|F:B(Add,i9223372036854775807,i1)|N;N"%string /\
+  run_case (e2 Div (ei i64_min) (ei (-1))) [ev [] []] = "K0|F:B(Div,i-9223372036854775808,i-1)|N;N"%string /\
+  run_case (e1 Neg (ei i64_min)) [ev [] []] = "K0|F:U(Neg,i-9223372036854775808)|N;N"%string.
+Proof. repeat split; vm_compute; reflexivity. Qed.
 
 (* ------------------------------------------------------------------ C11 *)
 
